@@ -344,6 +344,15 @@ class Build:
                 ks = refmodel.resolve_key_form(payload, u.keys)
                 idx = [u.keys.index(kk) for kk in ks]
             return r_slice(u, idx)
+        if k == 'concat3':
+            mid, last = (self.run(x, stage_prefix=stage + 'c')
+                         for x in refmodel.concat3_operands(op[1]))
+            return r_concat([u, mid, last])
+        if k == 'groupby':
+            self.eager = True
+            gf = fns.groupfn(op[1], stage)
+            idx = [i for i, (_, v) in enumerate(u.it()) if gf(v) == op[2]]
+            return r_slice(u, idx)
         if k == 'concat':
             return r_concat([u, operand])
         if k == 'intersperse':
